@@ -62,100 +62,154 @@ func (c *Ctx) HandlerSignature(prop string) {
 		}
 		_, batch := resV.Type().(*types.Slice)
 		nsig, bad := 0, 0
-		for _, b := range H.Blocks {
-			for _, ins := range b.Instrs {
-				st, ok := ins.(*ssa.Store)
-				if !ok {
+		// scopes in which the response is filled: the handler after the service call, and module helpers that are handed the
+		// service's results (their parameters then stand for the results / signatures)
+		type scope struct {
+			fn         *ssa.Function
+			from       an.Point
+			resV, sigV ssa.Value
+		}
+		scopes := []scope{{H, an.After(K), resV, sigV}}
+		seenFn := map[*ssa.Function]bool{H: true}
+		for _, ci := range Calls(H, func(ci ssa.CallInstruction) bool {
+			f := ci.Common().StaticCallee()
+			return f != nil && prog.InModule(f) && f.Blocks != nil && !ci.Common().IsInvoke()
+		}) {
+			f := ci.Common().StaticCallee()
+			var pr, ps ssa.Value
+			for ai, a := range ci.Common().Args {
+				if ai >= len(f.Params) {
 					continue
 				}
-				fa, ok := st.Addr.(*ssa.FieldAddr)
-				if !ok || !namedIs(fa.X.Type(), pkgPB, "SignResponse") {
-					continue
+				if a == resV {
+					pr = f.Params[ai]
 				}
-				fname := fieldNameOf(fa)
-				isSig := fname == "Signature"
-				isSuccState := fname == "State" && an.IsConstInt(st.Val, pbSucc)
-				if !isSig && !isSuccState {
-					continue
+				if sigV != nil && a == sigV {
+					ps = f.Params[ai]
 				}
-				var wantIdx ssa.Value
-				if isSig {
-					nsig++
-					if !batch {
-						if st.Val != sigV {
-							bad++
-							c.R.Fail(rule, Fn(H), c.Pos(st), "the response signature is not the signing service's output: "+an.Term(st.Val), "Signature = signature returned by the service", nil)
-							continue
+			}
+			if pr != nil && !seenFn[f] {
+				seenFn[f] = true
+				scopes = append(scopes, scope{f, an.Entry(f), pr, ps})
+			}
+		}
+		// a helper reachable from the handler that writes a signature or SUCCEEDED without seeing the results is not understood
+		for _, f := range c.StaticReach(H, 2) {
+			if seenFn[f] || !strings.Contains(prog.PkgPathOf(f), "/handlers/") {
+				continue
+			}
+			for _, b := range f.Blocks {
+				for _, ins := range b.Instrs {
+					if st, ok := ins.(*ssa.Store); ok {
+						if fa, ok := st.Addr.(*ssa.FieldAddr); ok && namedIs(fa.X.Type(), pkgPB, "SignResponse") {
+							fname := fieldNameOf(fa)
+							if fname == "Signature" || (fname == "State" && an.IsConstInt(st.Val, pbSucc)) {
+								bad++
+								c.R.Fail(rule, Fn(f)+":"+fname, c.Pos(st), "a helper of the handler writes "+fname+" into a response without being given the service's results", "only below [result == ResultSucceeded] of the same position", nil)
+							}
 						}
-					} else {
-						root, idx, ok := elemLoad(st.Val)
-						if !ok || root != sigV {
-							bad++
-							c.R.Fail(rule, Fn(H), c.Pos(st), "the response signature is not signatures[i] of the signing service's output: "+an.Term(st.Val), "Responses[i].Signature = signatures[i]", nil)
-							continue
-						}
-						wantIdx = idx
 					}
 				}
-				if batch {
-					// the response object must be Responses[idx] with the same idx
-					ro, ridx, ok := elemLoad(fa.X)
-					_ = ro
+			}
+		}
+		for _, sc := range scopes {
+			H, resV, sigV := sc.fn, sc.resV, sc.sigV
+			from := sc.from
+			for _, b := range H.Blocks {
+				for _, ins := range b.Instrs {
+					st, ok := ins.(*ssa.Store)
 					if !ok {
-						bad++
-						c.R.Fail(rule, Fn(H), c.Pos(st), "the response written is not an element of the response list", "Responses[i]", nil)
 						continue
 					}
-					if wantIdx != nil && ridx != wantIdx {
-						bad++
-						c.R.Fail(rule, Fn(H), c.Pos(st), "signature i is written into response j", "Responses[i].Signature = signatures[i]", nil)
+					fa, ok := st.Addr.(*ssa.FieldAddr)
+					if !ok || !namedIs(fa.X.Type(), pkgPB, "SignResponse") {
 						continue
 					}
-					wantIdx = ridx
-				}
-				target := ssa.Instruction(st)
-				x, path := an.Cut(an.CutQuery{From: an.After(K), Target: func(i ssa.Instruction) bool { return i == target },
-					AcceptEdge: func(b *ssa.BasicBlock, i int, a *an.Atom) bool {
-						if a == nil || a.Op != "==" {
-							return false
-						}
-						for _, side := range [][2]ssa.Value{{a.LV, a.RV}, {a.RV, a.LV}} {
-							if !an.IsConstInt(side[1], succ) {
+					fname := fieldNameOf(fa)
+					isSig := fname == "Signature"
+					isSuccState := fname == "State" && an.IsConstInt(st.Val, pbSucc)
+					if !isSig && !isSuccState {
+						continue
+					}
+					var wantIdx ssa.Value
+					if isSig {
+						nsig++
+						if !batch {
+							if st.Val != sigV {
+								bad++
+								c.R.Fail(rule, Fn(H), c.Pos(st), "the response signature is not the signing service's output: "+an.Term(st.Val), "Signature = signature returned by the service", nil)
 								continue
 							}
-							if !batch && side[0] == resV {
-								return true
+						} else {
+							root, idx, ok := elemLoad(st.Val)
+							if !ok || root != sigV {
+								bad++
+								c.R.Fail(rule, Fn(H), c.Pos(st), "the response signature is not signatures[i] of the signing service's output: "+an.Term(st.Val), "Responses[i].Signature = signatures[i]", nil)
+								continue
 							}
-							if batch {
-								root, idx, ok := elemLoad(side[0])
-								if ok && root == resV && idx == wantIdx {
+							wantIdx = idx
+						}
+					}
+					if batch {
+						// the response object must be Responses[idx] with the same idx
+						ro, ridx, ok := elemLoad(fa.X)
+						_ = ro
+						if !ok {
+							bad++
+							c.R.Fail(rule, Fn(H), c.Pos(st), "the response written is not an element of the response list", "Responses[i]", nil)
+							continue
+						}
+						if wantIdx != nil && ridx != wantIdx {
+							bad++
+							c.R.Fail(rule, Fn(H), c.Pos(st), "signature i is written into response j", "Responses[i].Signature = signatures[i]", nil)
+							continue
+						}
+						wantIdx = ridx
+					}
+					target := ssa.Instruction(st)
+					x, path := an.Cut(an.CutQuery{From: from, Target: func(i ssa.Instruction) bool { return i == target },
+						AcceptEdge: func(b *ssa.BasicBlock, i int, a *an.Atom) bool {
+							if a == nil || a.Op != "==" {
+								return false
+							}
+							for _, side := range [][2]ssa.Value{{a.LV, a.RV}, {a.RV, a.LV}} {
+								if !an.IsConstInt(side[1], succ) {
+									continue
+								}
+								if !batch && side[0] == resV {
 									return true
+								}
+								if batch {
+									root, idx, ok := elemLoad(side[0])
+									if ok && root == resV && idx == wantIdx {
+										return true
+									}
+								}
+							}
+							return false
+						}})
+					what := "the signature"
+					if isSuccState {
+						what = "state SUCCEEDED"
+					}
+					if x != nil {
+						bad++
+						c.R.Fail(rule, Fn(H)+":"+fname, c.Pos(st), what+" is written into the response on a path where the service result for that position is not SUCCEEDED", "only below [result == ResultSucceeded] of the same position", an.PathString(c.Pos, path))
+					}
+					// pairing: the block that sets the signature also sets State = SUCCEEDED on the same object
+					if isSig {
+						paired := false
+						for _, i2 := range b.Instrs {
+							if s2, ok := i2.(*ssa.Store); ok {
+								if fa2, ok := s2.Addr.(*ssa.FieldAddr); ok && namedIs(fa2.X.Type(), pkgPB, "SignResponse") && fieldNameOf(fa2) == "State" && an.IsConstInt(s2.Val, pbSucc) && an.Term(fa2.X) == an.Term(fa.X) {
+									paired = true
 								}
 							}
 						}
-						return false
-					}})
-				what := "the signature"
-				if isSuccState {
-					what = "state SUCCEEDED"
-				}
-				if x != nil {
-					bad++
-					c.R.Fail(rule, Fn(H)+":"+fname, c.Pos(st), what+" is written into the response on a path where the service result for that position is not SUCCEEDED", "only below [result == ResultSucceeded] of the same position", an.PathString(c.Pos, path))
-				}
-				// pairing: the block that sets the signature also sets State = SUCCEEDED on the same object
-				if isSig {
-					paired := false
-					for _, i2 := range b.Instrs {
-						if s2, ok := i2.(*ssa.Store); ok {
-							if fa2, ok := s2.Addr.(*ssa.FieldAddr); ok && namedIs(fa2.X.Type(), pkgPB, "SignResponse") && fieldNameOf(fa2) == "State" && an.IsConstInt(s2.Val, pbSucc) && an.Term(fa2.X) == an.Term(fa.X) {
-								paired = true
-							}
+						if !paired {
+							bad++
+							c.R.Fail(rule, Fn(H)+":pair", c.Pos(st), "a signature is set without state SUCCEEDED on the same response", "Signature and State=SUCCEEDED are set together", nil)
 						}
-					}
-					if !paired {
-						bad++
-						c.R.Fail(rule, Fn(H)+":pair", c.Pos(st), "a signature is set without state SUCCEEDED on the same response", "Signature and State=SUCCEEDED are set together", nil)
 					}
 				}
 			}
